@@ -145,12 +145,14 @@ fn body(ctx: &mut Ctx) {
     // ---- every multiplication form, fresh operands and operands with spare buffer capacity
     if ctx.space("FORMS") {
         type F = (&'static str, fn(&BigUint, &BigUint) -> BigUint);
+        static SLACK_OK: std::sync::atomic::AtomicU64 = std::sync::atomic::AtomicU64::new(0);
         fn slack(a: &BigUint, b: &BigUint) -> BigUint {
             // same value on a buffer with room for the whole product and more
-            let mut x = a.clone();
-            let k = 64 * (2 * a.bits().max(b.bits()) / 64 + 8);
-            x <<= k;
-            x >>= k;
+            let need = ((a.bits() + b.bits()) / 64 + 4) as usize;
+            let (x, cap) = with_slack(a, need);
+            if cap >= need {
+                SLACK_OK.fetch_add(1, Ordering::Relaxed);
+            }
             x
         }
         let forms: Vec<F> = vec![
@@ -245,6 +247,10 @@ fn body(ctx: &mut Ctx) {
                 prev = Some((n, w));
             }
             ctx.sample(|| format!("form {}: W(n) for n in {:?}; last W={}", name, sizes, prev.map_or(0, |p| p.1)));
+            let ok = SLACK_OK.swap(0, Ordering::Relaxed);
+            if ok > 0 {
+                ctx.count("operands_with_capacity_for_the_whole_product", ok);
+            }
         }
     }
     // ---- the property's own list: 8192 -> 16384
